@@ -330,6 +330,7 @@ def run(ctx, rep):
     rep.floor("C15.recursive compile_depth calls", n_rec, 2)
     fold_keeps_operands(F, rep)
     source_order_kept(F, rep)
+    infix_operands_keep_their_sides(F, rep)
     # "their values are not disturbed by the evaluation of later siblings": an operand that waits in a register while its siblings run
     # (store_fast / store_skip park it) has to be a value, not a view of the slot it was read from - the sibling may write that slot
     from props import C08 as _c08
@@ -533,3 +534,37 @@ def source_order_kept(F, rep, rule="C15.source-order"):
                ("%s calls %s: the sequence the generator walks is no longer the order the program wrote, so `map{f(): 1, g(): 2}` / `h(f(), g())` may run g first"
                 % (mir.short(hits[0][0].path), mir.short(hits[0][2]))) if hits else "", hits[0][1].span if hits else f.span, fn=f.path, key="%s|%s" % (rule, nm))
     rep.floor(rule + " sequence builders judged", n, 4)
+
+
+def infix_operands_keep_their_sides(F, rep, rule="C15.source-order"):
+    """The generators lay `lhs` down before `rhs` (C15.order); that is the order of the program only if the parser puts the operand written on the left
+    into `lhs`.  In the Pratt infix callback of parse_expr (the closure that builds Expr::BinOp) the two operand fields come from the callback's
+    two operand parameters, each from its own, in that order - a "canonicalising" swap (`3 * "ab"` stored as `"ab" * 3`) evaluates the right operand
+    first."""
+    pe = F.fn("compiler::ast::math_expr::parse_expr")
+    ea = F.adt("compiler::ast::math_expr::Expr")
+    if pe is None or ea is None:
+        raise AnchorMissing("parse_expr / Expr")
+    vi = [i for i, v in enumerate(ea["variants"]) if v["name"] == "BinOp"]
+    if not vi:
+        raise AnchorMissing("Expr::BinOp")
+    names = [x["name"] for x in ea["variants"][vi[0]]["fields"]]
+    thr = rules.TRANSPARENT | {rules.TRY_BRANCH, "alloc::boxed::Box::new"}
+    n = 0
+    for g in F.closures_of(pe):
+        for bi, si, dst, rv, s_ in g.assigns():
+            if not ("agg" in rv and rv["agg"].get("adt", "").endswith("math_expr::Expr") and rv["agg"].get("v") == "BinOp"):
+                continue
+            srcs = {}
+            for side in ("lhs", "rhs"):
+                l = mir.op_local(rv["ops"][names.index(side)])
+                tp = rules.trace_paths(g, l, transparent=thr) if l is not None else set()
+                srcs[side] = sorted({o for o, _ in tp}, key=str)
+            n += 1
+            pl = [o[1] for o in srcs["lhs"] if o[0] == "arg"]
+            pr = [o[1] for o in srcs["rhs"] if o[0] == "arg"]
+            good = (len(srcs["lhs"]) == 1 and len(srcs["rhs"]) == 1 and len(pl) == 1 and len(pr) == 1 and pl[0] < pr[0])
+            rep.ob(rule, "`a op b`: the operand written on the left becomes BinOp.lhs, the one on the right BinOp.rhs", "ok" if good else "violated",
+                   "" if good else "lhs comes from %s, rhs from %s: the parser can exchange the operands, and the generator then evaluates the one written second first "
+                   "(`count() * text()` runs text() first)" % (srcs["lhs"], srcs["rhs"]), s_.get("sp"), fn=g.path, key="%s|infix-operands|#%d" % (rule, n))
+    rep.floor(rule + " BinOp constructions in the infix callback", n, 1)
